@@ -66,7 +66,7 @@ def preload():
 EXPECTED_PROBES = {t: ["accept:simgen", "reject:simgen", "simgen_second_check_in_category_rejects", "accept:dbc", "accept:can_c", "accept:cpp", "accept:nop", "reject:dbc", "reject:can_c", "reject:cpp",
                        "reject:nop", "reject_after_successful_generation", "reject_plugin_check", "reject_general_check",
                        "reject_in_module", "manager_reused_second_generator", "via_cli", "via_api", "stale_c_files_present",
-                       "write_fault_fired", "outdir_absent", "mangled_existing_file:crlf", "regenerated_over_mangled_file"] for t in TIERS}
+                       "write_fault_fired", "outdir_absent", "mangled_existing_file:crlf", "regenerated_over_mangled_file", "sibling_of_existing_file"] for t in TIERS}
 
 GENERATORS = ["dbc", "can_c", "cpp", "nop", "simgen"]
 SIM_CATEGORIES = ["struct", "field", "enum", "impl", "signal_block", "type", "device"]
@@ -418,7 +418,7 @@ def gen_ops(rng, tier_cfg):
         ops.append(["mkdir"])
     n = rng.randint(3, 8)
     for i in range(n):
-        k = weighted(rng, [("gen", 7), ("touch", 1.5), ("rm", 0.7), ("mangle", 1.2 if i > 0 else 0)])
+        k = weighted(rng, [("gen", 7), ("touch", 1.5), ("rm", 0.7), ("mangle", 1.2 if i > 0 else 0), ("sibling", 0.8 if i > 0 else 0)])
         if k == "gen":
             g = rng.choice(enabled)
             inj = None
@@ -445,6 +445,13 @@ def gen_ops(rng, tier_cfg):
             ops.append(op)
         elif k == "touch":
             ops.append(["touch", rng.choice(["notes.txt", "default.fcp", "fcp.h", "x_can.c", "can_frame.h", "sub/y.h"]), rng.randrange(1 << 30)])
+        elif k == "sibling":
+            # a user file named like an existing (typically generated) file plus a backup-style suffix, then the same
+            # generation again: an accepted command may not touch it
+            prev_gens = [o for o in ops if o[0] == "gen"]
+            ops.append(["sibling", rng.choice([".tmp", ".bak", "~", ".orig", ".new", ".swp", ".part", ".1"]), rng.randrange(1 << 30)])
+            if prev_gens:
+                ops.append(list(rng.choice(prev_gens)))
         elif k == "mangle":
             # an existing file (typically an earlier output) is damaged in place, then the same generation is repeated:
             # the accepted command must leave exactly the returned contents behind, whatever was there before
@@ -517,6 +524,15 @@ def _execute(sysm, clock, ops, work, tier, probes, tr, distinct):
             p.parent.mkdir(parents=True, exist_ok=True)
             p.write_bytes(hashlib.sha256(str(op[2]).encode()).digest() * 3)
             last_change[op[1]] = (oi, "touch")
+            continue
+        if op[0] == "sibling":
+            snap = snapshot(out) or {}
+            files = sorted(k for k, v in snap.items() if v[0] == "file")
+            if files:
+                victim = files[op[2] % len(files)] + op[1]
+                (out / victim).write_bytes(b"user data " + str(op[2]).encode())
+                last_change[victim] = (oi, "touch")
+                probes["sibling_of_existing_file"] += 1
             continue
         if op[0] == "mangle":
             snap = snapshot(out) or {}
